@@ -75,3 +75,10 @@ def programs(tick, unit, kind='futures'):
                                                at_entry={'sl': [[1, 2]], 'tp': [[1, 2]]}, update=[{'at': 3, 'sl': 'all', 'sl_d': 1, 'tp': 'keep'}],
                                                cancel_entry=False)))
     return P
+
+
+def route_follower(tick, unit):
+    """second-symbol program: holds a market position without exits and places its stop (one tick below its entry) only when the
+    OTHER route opens a position"""
+    return ('route-follower', {'tick': tick, 'unit': unit, 'side': 'long', 'enter': {'when': {'at': [0]}, 'legs': [[1, 0]]},
+                               'on_route_open': {'sl': 'all', 'sl_d': 1}, 'cancel_entry': True})
